@@ -11,7 +11,7 @@ TRUSTED_BASE = common.CORE_TRUSTED
 ASSUMPTIONS = ["io.BytesIO.read returns at most the requested bytes (short at end of input)",
                "opcode bytes 1..77 are push prefixes and are not generated as opcodes of round-trip scripts"]
 RULE = ("every element length 0..521 (exhaustive), every opcode byte, random multi-element scripts, every "
-        "prefix of corpus serialisations and of random scripts, varints at all size boundaries ±1; "
+        "prefix of corpus serialisations and of random scripts, parser-grammar wire scripts (any push form and length field) cut at every header position under three declared lengths, all byte strings of length ≤ 4 over the parser-relevant bytes, varints at all size boundaries ±1; "
         "non-trivial = distinct case whose script has ≥ 2 commands or a data element, or a varint ≥ 0xfd, "
         "or a truncated input")
 
@@ -120,6 +120,41 @@ def _cases_core(rng, tier):
         bs = bytes(rng.getrandbits(8) for _ in range(rng.randint(0, 12)))
         yield "scr_parse " + hx(bs), "parse-junk"
         yield "vi_read " + hx(bs), "varint-junk"
+    # wire-level grammar of the PARSER (not only the image of the serialiser): opcodes, direct pushes and
+    # PUSHDATA1/PUSHDATA2 with ANY length field (zero, non-minimal, oversized), cut at every position while the
+    # declared script length is (a) that of the complete script, (b) that of the cut script, (c) off by one
+    def wire_token():
+        r = rng.random()
+        if r < 0.3:
+            return bytes([rng.choice([0] + list(range(78, 256)))])
+        if r < 0.5:
+            n = rng.choice([1, 2, 3, 75, rng.randint(1, 75)])
+            return bytes([n]) + bytes(rng.getrandbits(8) for _ in range(n))
+        if r < 0.75:
+            n = rng.choice([0, 1, 2, 75, 76, 255, rng.randint(0, 255)])
+            return b"\x4c" + bytes([n]) + bytes(rng.getrandbits(8) for _ in range(n))
+        n = rng.choice([0, 1, 2, 255, 256, 257, 520, 521, rng.randint(0, 600)])
+        return b"\x4d" + n.to_bytes(2, "little") + bytes(rng.getrandbits(8) for _ in range(n))
+    for _ in range(60 if tier == "quick" else 3000):
+        toks = [wire_token() for _ in range(rng.randint(1, 3))]
+        raw = b"".join(toks)
+        yield "scr_parse " + hx(_varint_indep(len(raw)) + raw), "wire-complete"
+        # cut points: every position inside the LAST token's header and a few inside its data, every token boundary
+        last = len(raw) - len(toks[-1])
+        cuts = set(range(last, min(len(raw), last + 4))) | {len(raw) - 1, len(raw) - 2} | \
+            {sum(len(t) for t in toks[:i]) for i in range(len(toks))}
+        if tier == "thorough":
+            cuts |= set(range(len(raw)))
+        for c in sorted(x for x in cuts if 0 <= x < len(raw)):
+            yield "scr_parse " + hx(_varint_indep(len(raw)) + raw[:c]), "wire-cut-declared-full"
+            yield "scr_parse " + hx(_varint_indep(c) + raw[:c]), "wire-cut-declared-cut"
+            yield "scr_parse " + hx(_varint_indep(c + 1) + raw[:c]), "wire-cut-declared-plus1"
+    # every byte string of length <= 4 (quick) / <= 5 (thorough) over the bytes that matter to the two parsers
+    alpha = [0, 1, 2, 3, 0x4b, 0x4c, 0x4d, 0x4e, 0xfd, 0xff]
+    import itertools
+    for ln in range(1, 5 if tier == "quick" else 6):
+        for t in itertools.product(alpha, repeat=ln):
+            yield "scr_parse " + hx(bytes(t)), "wire-small-exhaustive"
     for kind, ln in (("p2pkh", 20), ("p2sh", 20), ("p2wpkh", 20), ("p2wsh", 32)):
         yield "scr_build %s %s" % (kind, hx(bytes(range(ln)))), "builder"
 
